@@ -61,15 +61,15 @@ def idstr(idk):
 MC_ROWS = [
     {'t': 'dict', 'id': ('str', 'a'), 'n': 1},
     {'t': 'dict', 'id': ('str', 'a'), 'n': 2},
-    {'t': 'dict', 'id': ('int', '5'), 'n': 3},
+    {'t': 'dict', 'id': ('int', '0'), 'n': 3},      # a falsy id
     {'t': 'dict', 'id': ('ref', 'b'), 'n': 4},
     {'t': 'dict', 'n': 5},
     {'t': 'dict', 'id': ('str', 'c'), 'n': 6, 'only3': 'list'},
     {'t': 'nondict', 'v': 'list'},
     {'t': 'nondict', 'v': 'none'},
 ]
-# id codes of MC_GridSeq.tla: 1 'a', 2 '5', 3 '@b', 4 'c', 5 absent
-MC_CODES = {1: 'a', 2: '5', 3: '@b', 4: 'c', 5: 'zz'}
+# id codes of MC_GridSeq.tla: 1 'a', 2 '0' (int 0: falsy), 3 '@b', 4 'c', 5 absent
+MC_CODES = {1: 'a', 2: '0', 3: '@b', 4: 'c', 5: 'zz'}
 
 
 def key_variants(hs, s):
@@ -445,12 +445,12 @@ def idkinds(rows):
 
 def history_alphabet(rng):
     spec, codes, code_of = [], {}, {}
-    idpool = [('str', 'a'), ('str', 'b'), ('int', '5'), ('int', '12'), ('ref', 'b'), ('ref', 'r1'),
-              ('str', '5'), ('str', '@b'), ('str', 'c')]
+    idpool = [('str', 'a'), ('str', 'b'), ('int', '5'), ('int', '0'), ('ref', 'b'), ('ref', 'r1'),
+              ('str', '5'), ('str', '@b'), ('str', ''), ('str', '0')]
     for i in range(14):
         d = {'t': 'dict', 'n': i}
         if i % 5 != 4:
-            d['id'] = idpool[i % len(idpool)] if i < 9 else rng.choice(idpool)
+            d['id'] = idpool[i % len(idpool)] if i < 10 else rng.choice(idpool)
         if i in (6, 11):
             d['only3'] = rng.choice(['list', 'dict', 'na'])
         spec.append(d)
